@@ -16,6 +16,8 @@ pub struct CfgOpts {
     /// lower bounds (1 unless a "wide" configuration is wanted)
     pub min_methods: usize,
     pub min_patterns: usize,
+    /// counts around powers of two up to 300 and chains of up to `max_segs` segments ("scale" runs)
+    pub big: bool,
     /// percentage of methods configured with next_call
     pub ordered_pct: u64,
     pub allow_partial: bool,
@@ -36,6 +38,7 @@ impl Default for CfgOpts {
             max_patterns: 5,
             min_methods: 1,
             min_patterns: 1,
+            big: false,
             ordered_pct: 25,
             allow_partial: true,
             with_mut: true,
@@ -112,9 +115,12 @@ fn gen_resp(rng: &mut Rng, o: &CfgOpts, callable: &[M]) -> Resp {
     }
 }
 
-fn gen_count(rng: &mut Rng, zero: bool) -> u32 {
+fn gen_count(rng: &mut Rng, zero: bool, big: bool) -> u32 {
     if zero && rng.chance(1, 10) {
         0
+    } else if big && rng.chance(2, 3) {
+        // around the places where small fixed-size representations end
+        *rng.pick(&[7u32, 8, 9, 15, 16, 17, 31, 32, 33, 63, 64, 65, 127, 128, 129, 255, 256, 257, 300])
     } else {
         1 + rng.weighted(&[50, 35, 15]) as u32
     }
@@ -122,7 +128,7 @@ fn gen_count(rng: &mut Rng, zero: bool) -> u32 {
 
 /// chain for one pattern
 pub fn gen_segs(rng: &mut Rng, o: &CfgOpts, ordered: bool, top_level: bool, callable: &[M]) -> Vec<Seg> {
-    let n = 1 + rng.weighted(&[60, 28, 12]).min(o.max_segs - 1);
+    let n = if o.big && o.max_segs > 3 { rng.range(1, o.max_segs) } else { 1 + rng.weighted(&[60, 28, 12]).min(o.max_segs - 1) };
     let mut segs = vec![];
     for i in 0..n {
         let last = i + 1 == n;
@@ -131,20 +137,20 @@ pub fn gen_segs(rng: &mut Rng, o: &CfgOpts, ordered: bool, top_level: bool, call
             if rng.chance(1, 3) {
                 Quant::Once
             } else {
-                Quant::N(gen_count(rng, o.zero_counts))
+                Quant::N(gen_count(rng, o.zero_counts, o.big))
             }
         } else if ordered {
             match rng.weighted(&[40, 25, 35]) {
                 0 => Quant::Unq,
                 1 => Quant::Once,
-                _ => Quant::N(gen_count(rng, o.zero_counts)),
+                _ => Quant::N(gen_count(rng, o.zero_counts, o.big)),
             }
         } else {
             match rng.weighted(&[35, 15, 25, 25]) {
                 0 => Quant::Unq,
                 1 => Quant::Once,
-                2 => Quant::N(gen_count(rng, o.zero_counts)),
-                _ => Quant::AtLeast(gen_count(rng, true)),
+                2 => Quant::N(gen_count(rng, o.zero_counts, o.big)),
+                _ => Quant::AtLeast(gen_count(rng, true, o.big)),
             }
         };
         segs.push(Seg { resp, quant });
@@ -184,7 +190,7 @@ pub fn gen_config(rng: &mut Rng, o: &CfgOpts) -> Config {
                 preds.push(pred);
                 let resp = if rng.chance(2, 3) { Resp::Returns } else { Resp::AnswersArc(Prog::default()) };
                 let (form, quant) = if ordered {
-                    (Form::NextCall, if rng.chance(1, 2) { Quant::Unq } else { Quant::N(gen_count(rng, false)) })
+                    (Form::NextCall, if rng.chance(1, 2) { Quant::Unq } else { Quant::N(gen_count(rng, false, false)) })
                 } else {
                     (Form::EachCall, *rng.pick(&[Quant::Unq, Quant::Once, Quant::N(2), Quant::AtLeast(1)]))
                 };
